@@ -56,7 +56,7 @@ static void b_setmulti(unsigned n, unsigned m, int failpos)
 	char *texts[2] = { "a", "b" };
 	memset(&cfg, 0, sizeof cfg); cfg.name = "root"; cfg.errfunc = cfgv_errfunc; cfg.flags = nondet_int();
 	/* well-formed: a scalar holds at most one value and takes at most one; not a multi section */
-	if (!((k_flags & CFGF_LIST) || (n <= 1 && m <= 1)) || (k_flags & CFGF_MULTI)) return;
+	if (!((k_flags & CFGF_LIST) || n <= 1) || (k_flags & CFGF_MULTI)) return;       /* a scalar holds at most one value (it may be given several texts: the last one wins) */
 	mk_opt(&o, CFGT_INT, n, 0);
 	snap(&o, &s);
 	g_so_calls = 0; g_so_failpos = failpos; in_failpos = failpos; g_so_diag = 0;
@@ -65,11 +65,12 @@ static void b_setmulti(unsigned n, unsigned m, int failpos)
 	rc = cfg_opt_setmulti(&cfg, &o, m, texts);
 
 	if (rc == CFG_SUCCESS) {
-		CHECK("C09,C10", failpos < 0 || failpos >= (int)m, "bulk set succeeds only when every element converts");
-		CHECK("C09", o.nvalues == m && (o.flags & CFGF_MODIFIED) && !(o.flags & CFGF_RESET), "bulk set: exactly the new values, marked modified, no longer a default");
-		CHECK("C09,C14", g_so_calls == (int)m && g_so_text[0] == texts[0] && (m < 2 || g_so_text[1] == texts[1]), "bulk set converts each text once, in order");
+		CHECK("C09,C10,C04", failpos < 0 || failpos >= (int)m, "bulk set succeeds only when every element converts");
+		CHECK("C09", o.nvalues == ((k_flags & CFGF_LIST) ? m : 1) && (o.flags & CFGF_MODIFIED) && !(o.flags & CFGF_RESET), "bulk set: exactly the new values (a scalar keeps the last), marked modified, no longer a default");
+		CHECK("C09,C14,C04,C10", g_so_calls == (int)m && g_so_text[0] == texts[0] && (m < 2 || g_so_text[1] == texts[1]), "bulk set converts every text once, in order (an unconvertible element at any position is seen)");
 		for (unsigned k = 0; k < 2; k++)
-			if (k < m && o.nvalues == m) CHECK("C09", o.values[k]->number == g_so_value[k], "bulk set stores the converted values in order");
+			if ((k_flags & CFGF_LIST) && k < m && o.nvalues == m) CHECK("C09", o.values[k]->number == g_so_value[k], "bulk set stores the converted values in order");
+		if (!(k_flags & CFGF_LIST) && o.nvalues == 1) CHECK("C09", o.values[0]->number == g_so_value[m - 1], "bulk set of a scalar keeps the last converted value");
 		CHECK("C07", o.comment == s.comment, "bulk set keeps the option's annotation");
 		if (s.comment) CHECK("C07", __CPROVER_r_ok(s.comment, 1), "bulk set: the annotation the option points to is still alive");
 	} else {
@@ -77,7 +78,7 @@ static void b_setmulti(unsigned n, unsigned m, int failpos)
 		if (s.comment) CHECK("C10,C07", __CPROVER_r_ok(s.comment, 1), "a refused bulk set does not release the annotation");
 		for (unsigned i = 0; i < NV; i++) if (i < n) CHECK("C10,C07", __CPROVER_r_ok(s.slot[i], 1), "a refused bulk set does not release the old values");
 	}
-	if (rc == CFG_SUCCESS) { if (o.comment == s.comment && o.nvalues == m) drop_n(&o, m, 0); } else if (same(&o, &s)) drop_n(&o, n, 0);
+	if (rc == CFG_SUCCESS) { if (o.comment == s.comment && (k_flags & CFGF_LIST) && o.nvalues == m) drop_n(&o, m, 0); else if (o.comment == s.comment && !(k_flags & CFGF_LIST) && o.nvalues == 1) drop_n(&o, 1, 0); } else if (same(&o, &s)) drop_n(&o, n, 0);
 }
 void h_setmulti(void)
 {
